@@ -202,6 +202,8 @@ def _len(eng, x):
         f, _ = x.cls.lookup("__len__")
         if f is not None:
             return eng.call(Bound(f, x), [], {})
+        if "__dict_storage__" in x.attrs:
+            return len(x.attrs["__dict_storage__"])
     if eng.is_native_concrete(x):
         return eng._concrete(lambda: len(x))
     raise PyRaise(TypeError, ("len",))
@@ -236,6 +238,8 @@ def _dict(eng, *a, **kw):
     d = {}
     if a:
         src = a[0]
+        if isinstance(src, Rec) and "__dict_storage__" in src.attrs:
+            src = src.attrs["__dict_storage__"]
         if isinstance(src, dict):
             d.update(src)
         elif is_obj(src):
